@@ -25,8 +25,8 @@ ASSUMPTIONS = ["instances created before a clear() are don't-care afterwards (ne
 ANCHORS = ["update_cache", "SymbolGraph.add_node", "SymbolGraph.remove_node", "SymbolGraph.remove_dead_instances",
            "SymbolGraph.get_instances_of_type", "Symbol.__new__"]
 
-OPS = ["create", "create", "create", "drop", "drop", "gc", "relate", "q_new", "q_new", "q_build", "q_eval", "q_eval", "clear",
-       "forget", "forget"]
+OPS = ["create", "create", "create", "drop", "drop", "gc", "relate", "q_new", "q_new", "q_build", "q_build_attr", "q_eval", "q_eval",
+       "clear", "forget", "forget"]
 
 
 def plan(tier):
@@ -44,7 +44,7 @@ def setup(ctx):
 def gen(rng, tier, ctx):
     n = rng.randint(10, 60)
     steps = []
-    p_clear = rng.choice([0.0, 0.0, 0.03])
+    p_clear = rng.choice([0.0, 0.0, 0.03, 0.06])
     for _ in range(n):
         op = rng.choice(OPS)
         if op == "clear" and rng.random() > p_clear * 10:
@@ -55,7 +55,7 @@ def gen(rng, tier, ctx):
             steps.append(["drop", rng.randrange(1000)])
         elif op == "relate":
             steps.append(["relate", rng.choice(["works_for", "member_of", "members", "sub_org_of"]), rng.randrange(1000), rng.randrange(1000)])
-        elif op in ("q_new", "q_build"):
+        elif op in ("q_new", "q_build", "q_build_attr"):
             steps.append([op, rng.choice(["Person", "Employee", "Manager", "Org", "Dept", "Chief", "Volunteer", "WorkingStudent", "VOrg", "VPerson"])])
         elif op == "q_eval":
             steps.append(["q_eval", rng.randrange(1000)])
@@ -100,6 +100,7 @@ def run(spec, ctx):
     pre_clear = set()      # names created before the last clear
     seq = 0
     queries = []           # [query, type name, evaluated_before, census names at first evaluation]
+    attr_queries = []      # [query selecting let(T, None).name, type name]
     problems = []
     known = None
     state = {"dead_seen": 0, "reclaimed_before_query": False}
@@ -251,6 +252,31 @@ def run(spec, ctx):
             T = om.ALL_CLASSES[step[1]]
             queries.append([an(entity(let(T, None))), step[1], False, set()])
             shape.append("b" + step[1][0])
+        elif op == "q_build_attr":
+            # the domain-less variable is reachable only through the selected attribute
+            if step[1] == "Chief":
+                continue            # a role has no name field
+            T = om.ALL_CLASSES[step[1]]
+            attr_queries.append([an(entity(let(T, None).name)), step[1]])
+            shape.append("a" + step[1][0])
+        elif op == "q_eval" and attr_queries and step[1] % 3 == 0:
+            q, tname = attr_queries[step[1] % len(attr_queries)]
+            gc.collect()
+            try:
+                names = Counter(q.evaluate())
+            except Exception as e:
+                problems.append(f"attribute query over {tname}: evaluate raised {type(e).__name__}: {e}")
+                known = "__unexplained__"
+                continue
+            C["queries_checked"] += 1
+            C["attribute_queries_checked"] += 1
+            live = alive(tname)
+            required = Counter(o.name for n, o in live.items() if n not in pre_clear)
+            allowed = Counter(o.name for n, o in live.items())
+            if (required - names) or (names - allowed):
+                problems.append(f"attribute query over {tname}: names {dict(names)} vs live instances {dict(required)}")
+                known = "__unexplained__"
+            shape.append("A")
         elif op == "q_eval":
             if queries:
                 ent = queries[step[1] % len(queries)]
@@ -267,14 +293,16 @@ def run(spec, ctx):
             # the program drops its query objects and results: the harness also empties krrood's known
             # process-wide query registries (C20's finding), otherwise nothing is ever reclaimed
             queries.clear()
+            attr_queries.clear()
             holders.clear_known_holders()
             shape.append("f")
         elif op == "clear":
             SymbolGraph().clear()
             SymbolGraph()
             pre_clear |= set(census)
-            queries.clear()
+            # queries built before the clear stay: evaluated afterwards they range over the new graph's instances
             C["clears"] += 1
+            C["queries_kept_across_clear"] += len(queries)
             state["reclaimed_before_query"] = True
             shape.append("X")
     strong.clear()
